@@ -358,12 +358,20 @@ def c06_8(ctx):
             at = origins(fn, n.id, n.ast)
             mentions_sig = "attrname:script_sig" in at or "name:script_sig" in at or any(a.startswith("name:script_sig") for a in at) or "name:original_commands" in at
             if mentions_sig:
-                # one of its edges must lead directly to a failure
+                # accepted shape: a failure node (return False / raise) that is reachable only through the "scriptSig non-empty" edge of
+                # this test and through the true edge of a witness-program predicate
                 fails = False
-                for b, l in cfg.succ[n.id]:
-                    r = cfg.reach([b])
-                    if not any(cfg.nodes[x].kind == "return" and not _is_false_return(cfg.nodes[x]) for x in r):
-                        fails = True
+                pred_tests = [t for t in cfg.tests() if isinstance(t.ast, ast.Call) and call_name(t.ast) in WITNESS_PREDICATES]
+                for label in (True, False):
+                    for r in cfg.nodes:
+                        if not (r.kind == "raise" or (r.kind == "return" and _is_false_return(r))):
+                            continue
+                        if r.id not in cfg.reach([cfg.entry]):
+                            continue
+                        without_sig = cfg.reach([cfg.entry], removed={(n.id, label)})
+                        without_pred = cfg.reach([cfg.entry], removed={(t.id, True) for t in pred_tests})
+                        if r.id not in without_sig and r.id not in without_pred and pred_tests:
+                            fails = True
                 cands.append((spec, mod, fn, n, fails, has_pred))
     good = [c for c in cands if c[4] and c[5]]
     if good:
